@@ -9,7 +9,7 @@ from simkit import core
 from simkit import env
 
 VALUES = ['five', 'zero', 'fifty', 'neg', 'ten', 'none', 'nan', 'str', 'frac', 'true', 'inf', 'ninf', 'list', 'dict',
-          'tuple', 'enum', 'bigint']
+          'tuple', 'enum', 'bigint', 'one', 'onef', 'false', 'zerof', 'fivef']
 
 
 def value_of(tag):
@@ -18,10 +18,12 @@ def value_of(tag):
       'five': 5, 'zero': 0, 'fifty': 50, 'neg': -1, 'ten': 10, 'none': None, 'nan': float('nan'), 'str': 'abc',
       'frac': 2.25, 'true': True, 'inf': float('inf'), 'ninf': float('-inf'), 'list': [1, 2.5, 'x', None],
       'dict': {'k': 1, 'n': float('nan')}, 'tuple': (1, (2, 'y')), 'enum': mbodies.Color.RED, 'bigint': 2 ** 70,
+      # values that compare equal but render differently
+      'one': 1, 'onef': 1.0, 'false': False, 'zerof': 0.0, 'fivef': 5.0,
   }[tag]
 
 
-NUMERIC = ['five', 'zero', 'fifty', 'neg', 'ten', 'frac']
+NUMERIC = ['five', 'zero', 'fifty', 'neg', 'ten', 'frac', 'one', 'onef', 'zerof', 'fivef']
 
 
 def gen(tape, for_c10=False):
@@ -269,7 +271,13 @@ def run(tape, for_c10):
   sink = []
   obs = {'reads': [], 'watch': []}
 
+  wout = {}
+
   def read_hook(state, i):
+    # (an inline read never overlaps with the watcher's own rendering: two overlapping
+    # as_base_types() calls are a separate, known matter)
+    while wout.get('in_render'):
+      core.sim_sleep(0)
     snap = state.as_base_types()
     rps = snap['running_phase_state']
     live = state.running_phase_state
@@ -302,7 +310,6 @@ def run(tape, for_c10):
       sim.begin()
       try:
         if spec['watcher']:
-          wout = {}
 
           def watch():
             while True:
@@ -312,11 +319,14 @@ def run(tape, for_c10):
                   return
                 core.sim_sleep(0)
                 continue
+              wout['in_render'] = True
               try:
                 snap, ev = st.asdict_with_event()
               except RuntimeError:
+                wout['in_render'] = False
                 core.sim_sleep(0)
                 continue
+              wout['in_render'] = False
               if snap['status'] == 'COMPLETED':
                 return
               ev.wait()
